@@ -1,8 +1,9 @@
 import PauLieVerif.Model.CmdPS
+import PauLieVerif.Model.CmdGraph
 
 open PauLie
 
-def handlers : List (String → Option String) := [CmdPS.handle]
+def handlers : List (String → Option String) := [CmdPS.handle, CmdGraph.handle]
 
 def respond (line : String) : String :=
   match handlers.findSome? (fun h => h line) with
